@@ -1,7 +1,7 @@
 """C20 - tag authentication and MAC-protected reads cannot be fooled.
 
 Obligations: Props/C20.v (DES key-parity invariance, mac_read_sound, auth_iff_mac, auth_same_key,
-auth_other_key under the ideal-MAC premise, protect_then_auth for FeliCa Lite / Lite-S / NTAG21x,
+auth_other_key under the ideal-MAC premise, Lite-S mutual authentication, protect_then_auth for FeliCa Lite / Lite-S / NTAG21x,
 DES known answers in Proofs/DesKat.v).
 Correspondence: real FelicaLite / FelicaLiteS / NTAG21x objects (nfc.tag.activate over a fake
 frontend) talking to harness/sim/auth_tags.py cards that hold a key and compute MACs with an
@@ -349,7 +349,7 @@ def main():
                       'FeliCa protect() with protect_from = 0 is modelled for cards that do not answer the NFC Forum (12FCh) poll; the NDEF '
                       'attribute update that follows otherwise belongs to C01-C03',
                       'passwords are byte strings']
-    ck.coq(gen=[], targets=['Proofs/DesKat.vo', 'Proofs/AuthMac.vo', 'Proofs/AuthTag.vo', 'Proofs/AuthNtag.vo', 'Proofs/AuthDefects.vo'], props='C20')
+    ck.coq(gen=[], targets=['Proofs/DesKat.vo', 'Proofs/AuthMac.vo', 'Proofs/AuthTag.vo', 'Proofs/AuthLiteS.vo', 'Proofs/AuthNtag.vo', 'Proofs/AuthDefects.vo'], props='C20')
     mr = ck.model()
     rng = ck.rng
     quick = ck.tier == 'quick'
@@ -414,6 +414,8 @@ def main():
     run.flush()
 
     # ------------------------------------------------------------------ FeliCa Lite / Lite-S scenarios
+    fuzz_pool = []
+
     def felica_case(lites, init, ops, mutation, label, nontrivial=True):
         res = run_felica(lites, init, ops, mutation)
         case = {'family': 'felica', 'lites': lites, 'init': {str(b): hx(v) for b, v in sorted(init.items())},
@@ -426,6 +428,8 @@ def main():
                                       ','.join(hx(c) for c, _r in res['transcript']) or '-'),
                 ','.join('none' if r is None else hexarg(r) for r in res['true_rsp']), 'felica-card:' + label, case)
         felica_monitor(ck, lites, ops, res, mutation, case)
+        if mutation is None and len(res['transcript']) >= 2:
+            fuzz_pool.append((lites, dict(res['before']), [c for c, _r in res['transcript']]))
         ck.case((lites, sorted(init.items()), case['ops'], case['mutation']), nontrivial,
                 {'kind': label, 'ops': case['ops'], 'mutation': case['mutation'], 'obs': res['obs']})
         ck.count('felica:' + label)
@@ -552,6 +556,28 @@ def main():
             locked = dict(init)
             locked[0x88] = bytes([0xFE, 0xFF, 0, 1, 7, 1, 0, 0, 0, 0, 0, 0, 0, 0, 0, 0])
             felica_case(True, locked, [('auth', key, rc), ('wmac', rbytes(16), 0), ('wmac', rbytes(16), 1), ('rmac', [0, 1])], None, 'write-refused')
+    # the card model against the simulated card on damaged commands (no reader involved)
+    for _ in range(200 if quick else 3000):
+        lites, before, cmds = rng.choice(fuzz_pool)
+        cmds = [bytearray(c) for c in cmds]
+        for _ in range(rng.randrange(1, 3)):
+            c = rng.choice(cmds)
+            how = rng.random()
+            if how < 0.7:
+                c[rng.randrange(len(c))] ^= 1 << rng.randrange(8)
+            elif how < 0.85 and len(c) > 2:
+                del c[rng.randrange(len(c))]
+                c[0] = len(c)
+            else:
+                c.insert(rng.randrange(1, len(c) + 1), rng.randrange(256))
+                c[0] = len(c) & 255
+        card = sim.FelicaLiteCard(lites=lites, idm=IDM, init=before)
+        rsps = [card.process(bytes(c)) for c in cmds]
+        run.add('ftag %s %s %s %s' % ('lites' if lites else 'lite', hx(IDM), init_token(before, 16), ','.join(hx(c) for c in cmds)),
+                ','.join('none' if r is None else hexarg(r) for r in rsps), 'felica-card:fuzz',
+                {'family': 'card-fuzz', 'lites': lites, 'cmds': [hx(c) for c in cmds]})
+        ck.case(('fuzz', lites, tuple(bytes(c) for c in cmds)), True)
+        ck.count('felica-card:fuzz')
     run.flush()
 
     # ------------------------------------------------------------------ NTAG21x
